@@ -48,7 +48,7 @@ package jschema
 //@   assumes consReady(box(node))
 //@   maypanic
 //@   modifies *
-//@   ensures normal && result1 == nil ==> result0.$arr > old(alloc)
+//@   ensures normal && result1 == nil ==> len(result0) == 0 || result0.$arr > old(alloc)
 //@   loop 0 invariant rangeindex >= 0 - 1
 
 //@ func (*exampleBuilder).buildExampleForArrayNode(node)
@@ -57,5 +57,5 @@ package jschema
 //@   assumes consReady(box(node))
 //@   maypanic
 //@   modifies *
-//@   ensures normal && result1 == nil ==> result0.$arr > old(alloc)
+//@   ensures normal && result1 == nil ==> len(result0) == 0 || result0.$arr > old(alloc)
 //@   loop 0 invariant rangeindex >= 0 - 1
